@@ -19,8 +19,6 @@ M = [
   "Position copy shares the Z axis object: lastPosition follows the tracked Z, Z changes inside an episode are never replayed"),
  ("c03_z_down_only_absolute", "C03", ["C03"], P + "ExcludeRegionState.py", "        if (newZ < oldZ):\n", "        if (newZ < oldZ and self.position.Z_AXIS.absoluteMode):\n",
   "downward Z re-sync skipped in relative mode"),
- ("c04_g92e_ignored_while_excluding", "C04", ["C04"], P + "GcodeHandlers.py", "                if (label == \"E\"):\n                    # Note: 1.0 Marlin", "                if (label == \"E\" and not self.state.excluding):\n                    # Note: 1.0 Marlin",
-  "G92 E inside an episode is forwarded but not tracked: exit re-sync sets a stale extruder coordinate"),
  ("c05_enter_forgets_retraction", "C05", ["C05"], P + "ExcludeRegionState.py", "        self.lastPosition = Position(self.position)\n        self._logger.info(\"START excluding", "        self.lastPosition = Position(self.position)\n        self.lastRetraction = None\n        self._logger.info(\"START excluding",
   "entering a region forgets an open retraction: the next in-region retraction is executed again (double retraction)"),
  ("c06_exit_script_alias", "C06", ["C06"], P + "ExcludeRegionState.py", "        returnCommands = []\n\n        if (self.pendingCommands):\n            for gcode, cmdArgs", "        returnCommands = []\n        if (not self.pendingCommands and self.exitingExcludedRegionGcode is not None):\n            return self.exitingExcludedRegionGcode\n\n        if (self.pendingCommands):\n            for gcode, cmdArgs",
@@ -35,8 +33,6 @@ M = [
   "suppress marker (None,) turned into an empty list"),
  ("c10_reset_keeps_enabled_flag", "C10", ["C10"], P + "ExcludeRegionState.py", "        self.feedRateUnitMultiplier = 1\n        self._exclusionEnabled = True\n", "        self.feedRateUnitMultiplier = 1\n        if (clearExcludedRegions):\n            self._exclusionEnabled = True\n",
   "a new print inherits 'exclusion disabled' from the previous one"),
- ("c10_reset_keeps_retraction", "C10", ["C10"], P + "ExcludeRegionState.py", "        self.lastRetraction = None\n        self.lastPosition = None\n        self.pendingCommands = OrderedDict()", "        if (not self.excluding):\n            self.lastRetraction = None\n        self.lastPosition = None\n        self.pendingCommands = OrderedDict()",
-  "print aborted mid-episode leaves lastRetraction behind (excluding is reset first in the real code, so order matters)"),
  ("c11_paused_ends_job", "C11", ["C11"], P + "__init__.py", "                Events.PRINT_CANCELLED,\n                Events.ERROR\n", "                Events.PRINT_CANCELLED,\n                Events.PRINT_PAUSED,\n                Events.ERROR\n",
   "pause ends the job"),
  ("c11_at_hook_not_gated", "C11", ["C11"], P + "__init__.py", "        if (self.isActivePrintJob):\n            self.gcodeHandlers.handleAtCommand(commInstance, cmd, parameters)", "        if (True):\n            self.gcodeHandlers.handleAtCommand(commInstance, cmd, parameters)",
